@@ -191,7 +191,8 @@ func c13Unrepresentable(s string, lang syntax.LangVariant) bool {
 
 // c13RoundTrip runs the property on the implementation: "fail" when Quote refuses, "ok" when the
 // result is exactly one word of literal/quoted parts that expands to s (as a lone word and as an
-// argument of a simple command), otherwise "bad <reason>".
+// argument of a simple command, and as the command word of a program consisting of nothing else),
+// otherwise "bad <reason>".
 func c13RoundTrip(s string, lang syntax.LangVariant) string {
 	out, q, ok := c13Quote(s, lang)
 	if !ok {
@@ -251,7 +252,97 @@ func c13RoundTrip(s string, lang syntax.LangVariant) string {
 	if res != "" {
 		return res
 	}
-	return "ok"
+	return c13CmdPos(s, q, lang)
+}
+
+// c13ClauseWord: bare words to which the parser itself gives a statement-level meaning although
+// the shell treats them as ordinary command names (builtins): `let` (LetClause, a parse error
+// without an expression), the declaration builtins (DeclClause) and bats' `@test`.  Quoting cannot
+// and need not change that (bash runs the builtin for 'declare' too); they are not reserved words
+// of the shell grammar, IsKeyword rightly does not list them, so the command-position requirement
+// is relaxed for exactly these words, per variant, as the parser's gotStmtPipe switch has them.
+func c13ClauseWord(s string, lang syntax.LangVariant) string {
+	if lang == 0 {
+		lang = syntax.LangBash
+	}
+	bashLike := lang == syntax.LangBash || lang == syntax.LangBats
+	kshLike := bashLike || lang == syntax.LangMirBSDKorn || lang == syntax.LangZsh
+	switch s {
+	case "let":
+		if kshLike {
+			return "let"
+		}
+	case "declare":
+		if bashLike || lang == syntax.LangZsh {
+			return "decl"
+		}
+	case "local", "export", "readonly", "typeset", "nameref":
+		if kshLike {
+			return "decl"
+		}
+	case "@test":
+		if lang == syntax.LangBats {
+			return "test"
+		}
+	}
+	return ""
+}
+
+// c13CmdPos parses the quoted text on its own, as a whole program: it must be one statement that
+// is a simple command with no assignment, no redirection and exactly one word, made of
+// literal/quoted parts, which expands to s (the FuzzQuote requirement of the repository).
+func c13CmdPos(s, q string, lang syntax.LangVariant) string {
+	res := "ok"
+	p := safely(func() {
+		clause := ""
+		if q == s {
+			clause = c13ClauseWord(s, lang)
+		}
+		f, err := syntax.NewParser(syntax.Variant(lang)).Parse(strings.NewReader(q), "")
+		if err != nil {
+			if clause == "let" || clause == "test" {
+				return
+			}
+			res = "bad cmd-parse-error"
+			return
+		}
+		if len(f.Stmts) != 1 {
+			res = fmt.Sprintf("bad cmd-stmts=%d", len(f.Stmts))
+			return
+		}
+		st := f.Stmts[0]
+		if len(st.Redirs) != 0 || st.Background || st.Negated || st.Coprocess {
+			res = "bad cmd-stmt-flags"
+			return
+		}
+		if dc, isDecl := st.Cmd.(*syntax.DeclClause); isDecl && clause == "decl" {
+			if dc.Variant == nil || dc.Variant.Value != s || len(dc.Args) != 0 {
+				res = "bad cmd-decl-shape"
+			}
+			return
+		}
+		ce, isCall := st.Cmd.(*syntax.CallExpr)
+		if !isCall {
+			res = fmt.Sprintf("bad cmd-%T", st.Cmd)
+			return
+		}
+		if len(ce.Assigns) != 0 || len(ce.Args) != 1 {
+			res = fmt.Sprintf("bad cmd-assigns=%d-args=%d", len(ce.Assigns), len(ce.Args))
+			return
+		}
+		if _, okParts := c13ShowWord(ce.Args[0]); !okParts {
+			res = "bad cmd-part-kind"
+			return
+		}
+		lit, err := expand.Literal(nil, ce.Args[0])
+		if err != nil || lit != s {
+			res = "bad cmd-expands"
+		}
+	})
+	if p != "" {
+		return "bad cmd-panic"
+	}
+	return res
 }
 
 type c13ShellJob struct {
@@ -289,7 +380,8 @@ var c13OddLangs = []syntax.LangVariant{3, 5, 6, 12, 20, 24, 64, 1 << 40}
 
 type c13State struct {
 	c          *Ctx
-	jobs       []c13ShellJob
+	jobs       []c13ShellJob // selected in runShells from prio (first) and cand (sampled)
+	prio, cand []c13ShellJob
 	bashBudget int
 	dashBudget int
 	seenShell  map[string]bool
@@ -323,11 +415,21 @@ func (st *c13State) one(s string, lang syntax.LangVariant, src string) {
 	}
 	// The property itself, for every variant Variant accepts (incl. the legacy zero value, which
 	// Quote maps to LangBash since fix 9caaaf3; witness in corpus/C13-fixed.txt).
-	st.spec(s, lang, false)
+	st.spec(s, lang, false, src)
 }
 
-func (st *c13State) spec(s string, lang syntax.LangVariant, known bool) {
+// c13KnownElif: open finding C13-elif-not-keyword — IsKeyword lacks "elif", so Quote returns it
+// bare and the result is a syntax error in command position (our parser, bash, dash).  The
+// generators never produce it and the spec/search leg skips it; corpus/C13-known.txt replays the
+// witness through c.Fail.
+const c13KnownElif = "elif"
+
+func (st *c13State) spec(s string, lang syntax.LangVariant, known bool, src string) {
 	c := st.c
+	if s == c13KnownElif && !known {
+		c.Hist["excluded-elif"]++
+		return
+	}
 	l := strconv.FormatInt(int64(lang), 10)
 	rt := c13RoundTrip(s, lang)
 	wit := "specrt " + l + " " + hx(s)
@@ -342,32 +444,86 @@ func (st *c13State) spec(s string, lang syntax.LangVariant, known bool) {
 		q, err := syntax.Quote(s, lang)
 		c.Fail(wit, fmt.Sprintf("Quote(%q, LangVariant(%d)) = %q, %v: round trip says %q, the property demands %q", s, int64(lang), q, err, rt, want))
 	}
-	if rt != "ok" || strings.IndexByte(s, 0) >= 0 {
+	if known || strings.IndexByte(s, 0) >= 0 {
 		return
 	}
-	q, _ := syntax.Quote(s, lang)
+	// shell leg: independent of the Go round trip, whenever Quote gave a result
+	q, err := syntax.Quote(s, lang)
+	if err != nil {
+		return
+	}
+	var job c13ShellJob
 	switch lang {
 	case syntax.LangBash:
-		if st.bashBudget > 0 && !st.seenShell["b"+s] {
-			st.seenShell["b"+s] = true
-			st.bashBudget--
-			st.jobs = append(st.jobs, c13ShellJob{"bash", lang, s, q})
-		}
+		job = c13ShellJob{"bash", lang, s, q}
 	case syntax.LangPOSIX:
-		if st.dashBudget > 0 && !st.seenShell["d"+s] {
-			st.seenShell["d"+s] = true
-			st.dashBudget--
-			st.jobs = append(st.jobs, c13ShellJob{"dash", lang, s, q})
-		}
+		job = c13ShellJob{"dash", lang, s, q}
+	default:
+		return
 	}
+	if st.seenShell[job.shell+s] {
+		return
+	}
+	st.seenShell[job.shell+s] = true
+	if src == "firstpos" || src == "corpus" || src == "keyword" {
+		st.prio = append(st.prio, job)
+	} else {
+		st.cand = append(st.cand, job)
+	}
+}
+
+// c13CmdScript: after `printf %s <q>` (argument position) the same text is used as the command
+// word of a command consisting of nothing else — unless the shell already knows a command of that
+// name (builtin, keyword, function, file), it must then fail with "command not found" (127; 126
+// for a path naming a directory).  $1 = s, $2 = q.
+const c13BashCmdScript = `k=$(type -t -- "$1"); if [ -n "$k" ]; then printf 'T:%s' "$k"; else eval " $2"; printf '|%s' "$?"; fi`
+const c13DashCmdScript = `if command -v -- "$1" >/dev/null 2>&1; then printf 'T:known'; else eval " $2"; printf '|%s' "$?"; fi`
+
+func (st *c13State) selectJobs() {
+	pick := func(shell string, budget int) {
+		var prio, cand []c13ShellJob
+		for _, j := range st.prio {
+			if j.shell == shell {
+				prio = append(prio, j)
+			}
+		}
+		for _, j := range st.cand {
+			if j.shell == shell {
+				cand = append(cand, j)
+			}
+		}
+		np := min(len(prio), budget/2)
+		st.jobs = append(st.jobs, prio[:np]...)
+		rest := budget - np
+		if rest >= len(cand) {
+			st.jobs = append(st.jobs, cand...)
+			return
+		}
+		// deterministic sample without replacement
+		for i := 0; i < rest; i++ {
+			k := i + st.c.R.Intn(len(cand)-i)
+			cand[i], cand[k] = cand[k], cand[i]
+		}
+		st.jobs = append(st.jobs, cand[:rest]...)
+	}
+	pick("bash", st.bashBudget)
+	pick("dash", st.dashBudget)
 }
 
 func (st *c13State) runShells() {
 	c := st.c
+	st.selectJobs()
 	res := parallelMap(len(st.jobs), 4, func(i int) ShellResult {
+		j := st.jobs[i]
+		script := "printf %s " + j.q + "\n"
+		if j.shell == "bash" {
+			script += c13BashCmdScript
+		} else {
+			script += c13DashCmdScript
+		}
 		var r ShellResult
 		for attempt := 0; attempt < 3; attempt++ {
-			r = runShell(c, st.jobs[i].shell, "printf %s "+st.jobs[i].q)
+			r = runShell(c, j.shell, script, j.s, j.q)
 			// Status -1 with Err set = the process could not be started/waited for (fork limits,
 			// WaitDelay under load): not an answer of the shell.
 			if !r.TimedOut && !(r.Status == -1 && r.Err != "") {
@@ -383,9 +539,30 @@ func (st *c13State) runShells() {
 			c.Hist["shell-no-answer"]++
 			continue
 		}
-		if r.Status != 0 || r.Stdout != j.s {
-			c.Fail("shell "+strconv.Itoa(int(j.lang))+" "+hx(j.s),
-				fmt.Sprintf("%s: printf %%s %s printed %q (status %d), want %q", j.shell, j.q, r.Stdout, r.Status, j.s))
+		wit := "shell " + strconv.Itoa(int(j.lang)) + " " + hx(j.s)
+		if !strings.HasPrefix(r.Stdout, j.s) {
+			c.Fail(wit, fmt.Sprintf("%s: printf %%s %s printed %q (status %d), want %q", j.shell, j.q, r.Stdout, r.Status, j.s))
+			continue
+		}
+		// command position
+		rest := r.Stdout[len(j.s):]
+		okCmd := false
+		switch {
+		case rest == "T:keyword":
+			// a reserved word of the shell: fine only if Quote did quote it
+			okCmd = j.q != j.s
+		case strings.HasPrefix(rest, "T:"):
+			okCmd = true // the shell has a command of that name; nothing to learn
+			c.Hist["shell-cmd-known-name"]++
+		case rest == "|127":
+			okCmd = true
+		case rest == "|126":
+			okCmd = strings.Contains(j.s, "/")
+		case j.shell == "bash" && strings.HasPrefix(j.s, "%"):
+			okCmd = true // bash: a word starting with % in command position is a job spec (fg)
+		}
+		if !okCmd {
+			c.Fail(wit, fmt.Sprintf("%s: %s used as the command word gives %q (want |127 = command not found, i.e. one plain word); printf %%s %s printed the string correctly", j.shell, j.q, rest, j.q))
 		}
 	}
 	c.Extra["shell_runs"] = len(st.jobs)
@@ -409,9 +586,48 @@ func c13Gen(r *Rand, maxLen int) (string, string) {
 	case k < 27:
 		kind = "quotes" // single quotes force the "…" shape
 		alpha = append(append([]string{}, c13Letters...), "'", "'", "'", "\"", "$", "`", "\\", "é", "世", " ", "!", "*")
-	case k < 30:
+	case k < 29:
 		kind = "plain"
 		alpha = append(append([]string{}, c13Letters...), "}", "]", "!", "-", "%", "^", ",", ":", "@", "+", "/", ".", "é", "世")
+	case k < 33:
+		// strings that are syntax when they stand first in a command: assignments (plain, append,
+		// indexed), reserved words, tilde, comment, closing tokens, array literal, leading -/+
+		kind = "firstpos"
+		names := []string{"a", "n", "PATH", "_x1", "A_b", "x9", "if", "B"}
+		vals := []string{"", "b", "1", ":/opt/bin", "=", "b=c", "é", "-x", "+", "a+=b", "(b)", "~", "{a,b}", "x y", "b'c"}
+		idx := []string{"1", "k", "0", "@", "x+1", "'k'"}
+		nm, vl := r.Pick(names), r.Pick(vals)
+		var s string
+		switch r.Intn(14) {
+		case 0:
+			s = nm + "=" + vl
+		case 1, 2, 3:
+			s = nm + "+=" + vl
+		case 4:
+			s = nm + "[" + r.Pick(idx) + "]=" + vl
+		case 5:
+			s = nm + "[" + r.Pick(idx) + "]+=" + vl
+		case 6:
+			s = r.Pick([]string{"if", "{", "!", "[[", "function", "time", "coproc", "select", "then", "else", "fi", "do", "done", "esac", "case", "for", "while", "until", "in", "}", "]]"})
+			if r.Chance(30) {
+				s += r.Pick([]string{"x", "+=1", "=1", " a", "}"})
+			}
+		case 7:
+			s = "~" + r.Pick([]string{"user", "root", "", "/x", "+", "-"})
+		case 8:
+			s = "#" + vl
+		case 9:
+			s = r.Pick([]string{"}", "]]", "}}", "]]]", "}x", "]]x", "a}", "a]]"})
+		case 10:
+			s = nm + "=(" + vl + ")"
+		case 11:
+			s = r.Pick([]string{"-", "+", "--", "-+", "+-"}) + r.Pick([]string{"", "x", "flag=value", "n+=1", "e", "="})
+		case 12:
+			s = r.Pick([]string{"--flag=value", "a/b=c", "==", "=", "=a", "1a=b", "a.b=c", "a-b+=c", "+=", "+=x", "a+", "a+b", "a+=b+=c", "é+=1", "a b+=c"})
+		default:
+			s = r.Pick([]string{"let", "declare", "local", "export", "readonly", "typeset", "nameref", "@test", "{}", "eval", "exec", "test", "%1", "%", ".", ":", "..", "/", "a/"}) + r.Pick([]string{"", "", "x", "+=1"})
+		}
+		return s, kind
 	case k < 36:
 		kind = "keyword"
 		s := r.Pick(c13Keywords)
@@ -590,7 +806,9 @@ func c13(c *Ctx) {
 		switch {
 		case len(f) == 3 && f[0] == "specrt":
 			n, _ := strconv.ParseInt(f[1], 10, 64)
-			st.spec(unhx(f[2]), syntax.LangVariant(n), false)
+			wl, ws := syntax.LangVariant(n), unhx(f[2])
+			// lines of corpus/C13-known.txt are open findings: c.Fail only
+			st.spec(ws, wl, ws == c13KnownElif, "corpus")
 		case len(f) == 3 && f[0] == "quote":
 			n, _ := strconv.ParseInt(f[1], 10, 64)
 			st.one(unhx(f[2]), syntax.LangVariant(n), "corpus")
